@@ -126,8 +126,18 @@ V("C19", "serial-swallows", PYR, "                if is_leaf:\n                 
 V("C19", "join-in-finally", MTAN, "        with progress_bar(total=len(self._descs), show=cli_progress) as progress:\n            for image, desc in zip(self._collection.images(), self._descs):\n                put_to_workers(queue, (image, desc), workers, done_event)\n                progress.update(1)\n\n        # Finish up\n\n        queue.close()\n        queue.join_thread()\n        done_event.set()\n        join_workers(workers)",
   "        try:\n            with progress_bar(total=len(self._descs), show=cli_progress) as progress:\n                for image, desc in zip(self._collection.images(), self._descs):\n                    put_to_workers(queue, (image, desc), workers, done_event)\n                    progress.update(1)\n\n            queue.close()\n            queue.join_thread()\n            done_event.set()\n        finally:\n            join_workers(workers)", "C19.R2",
   note="the sub-agent's C19-m2 rebased onto the repaired tree")
-V("C19", "exitcode-none-ok", PAR, "if w.exitcode is not None and w.exitcode != 0:", "if w.exitcode is not None and w.exitcode != 0 and False:", "HOLDS",
-  note="limit of the rule: the condition under which the helper raises is not interpreted (documented in DESIGN.md)")
+V("C19", "exitcode-none-ok", PAR, "if w.exitcode is not None and w.exitcode != 0:", "if w.exitcode is not None and w.exitcode != 0 and False:", "C19.R6",
+  note="was a documented limit; C19.R6 interprets the condition under which the helper raises")
+V("C19", "exitcode-positive-only", PAR, "if w.exitcode is not None and w.exitcode != 0:", "if w.exitcode is not None and w.exitcode > 0:", "C19.R6",
+  note="a worker killed by a signal (negative exit code, e.g. the OOM killer) is no longer reported")
+V("C19", "exitcode-eq-1", PAR, "if w.exitcode is not None and w.exitcode != 0:", "if w.exitcode == 1:", "C19.R6")
+V("C19", "exitcode-first-only", PAR, "    for w in workers:\n        if w.exitcode is not None and w.exitcode != 0:", "    for w in workers[:1]:\n        if w.exitcode is not None and w.exitcode != 0:", "C19.R6")
+V("C19", "P-exitcode-truthy", PAR, "if w.exitcode is not None and w.exitcode != 0:", "if w.exitcode:", "HOLDS")
+V("C19", "P-exitcode-notin", PAR, "if w.exitcode is not None and w.exitcode != 0:", "if w.exitcode not in (None, 0):", "HOLDS")
+V("C19", "P-exitcode-guard", PAR, "        if w.exitcode is not None and w.exitcode != 0:\n            if done_event is not None:\n                done_event.set()\n\n            raise Exception(\n                f\"a worker process failed (exit code {w.exitcode}); see its error message above\"\n            )",
+  "        if w.exitcode is None or w.exitcode == 0:\n            continue\n        if done_event is not None:\n            done_event.set()\n        raise Exception(\n            f\"a worker process failed (exit code {w.exitcode}); see its error message above\"\n        )", "HOLDS")
+V("C19", "P-exitcode-any", PAR, "    for w in workers:\n        if w.exitcode is not None and w.exitcode != 0:\n            if done_event is not None:\n                done_event.set()\n\n            raise Exception(\n                f\"a worker process failed (exit code {w.exitcode}); see its error message above\"\n            )",
+  "    if any(w.exitcode not in (None, 0) for w in workers):\n        if done_event is not None:\n            done_event.set()\n        raise Exception(\"a worker process failed; see its error message above\")", "HOLDS")
 V("C19", "P-message", PAR, 'f"a worker process failed (exit code {w.exitcode}); see its error message above"', 'f"worker died with status {w.exitcode}"', "HOLDS")
 
 # ---------------------------------------------------------------- C07
